@@ -57,6 +57,9 @@ func GenCrashBase(seed uint64, job *Job, idx int) *RunSpec {
 	}
 	if enumerate {
 		spec.Policy = PolicySpec{Kind: "first"}
+		if (idx/2)%3 == 1 {
+			spec.Policy.WriteLatUs = 250
+		}
 	} else {
 		spec.Policy = g.policy()
 	}
@@ -182,7 +185,7 @@ func genC11Base(seed uint64, idx int) *RunSpec {
 	r := NewRng(seed).Sub("gen-c11")
 	g := &genCtx{r: r, profile: "C11", size: 0}
 	g.pCheck = Pick(r, []float64{0, 0.3, 0.5})
-	spec := &RunSpec{Engine: "crash", Seed: seed, SchedSeed: Mix(seed, 0xc11), Profile: "C11", Policy: PolicySpec{Kind: Pick(r, []string{"first", "random", "last"})}}
+	spec := &RunSpec{Engine: "crash", Seed: seed, SchedSeed: Mix(seed, 0xc11), Profile: "C11", Policy: PolicySpec{Kind: Pick(r, []string{"first", "random", "last"}), WriteLatUs: Pick(r, []int64{0, 0, 1, 250, 3000})}}
 	np := 2 + r.Intn(4)
 	for i := 0; i < np; i++ {
 		kind := Pick(r, []string{"never", "quick", "quickfail", "long", "long", "long"})
